@@ -1,9 +1,11 @@
 (* Proofs_Stmt.v — the statement-level rewrite rules of C10 over Model_Stmt. *)
-From GC Require Import Base Model_Expr Model_Stmt Proofs_Expr.
+From GC Require Import Base Model_Expr Model_BoolSimp Model_Stmt Proofs_Expr.
+From Coq Require Import QArith.
+Close Scope Q_scope.
 Open Scope string_scope.
 
 Definition is_arith (o : binop) : bool :=
-  match o with OAdd | OSub | OMul | OQuo | ORem => true | _ => false end.
+  match o with OAdd | OSub | OMul | OQuo | ORem | OAnd | OOr | OXor | OShl | OShr | OAndNot => true | _ => false end.
 
 Lemma eval_arith_generic en o a b h : is_arith o = true ->
   evalS en (EBinary o a b) h =
@@ -48,7 +50,8 @@ Lemma exec_assign_op en l o e h :
   end.
 Proof. reflexivity. Qed.
 
-Definition lval_pure (l : lval) : bool := match l with LVar _ _ => true | LIdx _ i => no_opaque i end.
+Definition lval_pure (l : lval) : bool :=
+  match l with LVar _ _ | LVarK _ _ _ | LSel _ _ _ _ => true | LIdx _ i | LIdxK _ _ i => no_opaque i end.
 
 (* assignOp: `x = x op y` => `x op= y` for a left operand without opaque calls (the rule's .Pure filter),
    any right operand (evaluated once, after x's operands, on both sides) *)
@@ -57,7 +60,7 @@ Theorem assign_op_preserves en l o e h :
   exec en (assign_op_lhs l o e) h = exec en (assign_op_rhs l o e) h.
 Proof.
   intros Hen Ao P. unfold assign_op_lhs, assign_op_rhs. rewrite exec_assign, exec_assign_op.
-  destruct l as [x t|x i]; simpl lval_expr.
+  destruct l as [x t|x i|x k t|x k i|x f k t]; simpl lval_expr.
   - simpl eval_lval. cbv beta iota. rewrite (eval_arith_generic en o _ _ h Ao). simpl.
     destruct (evalS en e h) as [[[v|] h2]|]; simpl; auto.
     destruct (binop_apply o (vars en x t) v) as [[w|]|]; reflexivity.
@@ -71,22 +74,74 @@ Proof.
     destruct (nth_Z l (Z.to_nat z)); simpl; auto.
     destruct (evalS en e h) as [[[v|] h2]|]; simpl; auto.
     destruct (binop_apply o (VInt z0) v) as [[w|]|]; reflexivity.
+  - simpl eval_lval. cbv beta iota. rewrite (eval_arith_generic en o _ _ h Ao). simpl.
+    destruct (evalS en e h) as [[[v|] h2]|]; simpl; auto.
+    destruct (binop_apply o (vars en x t) v) as [[w|]|]; reflexivity.
+  - simpl in P. destruct (no_opaque_pure en i P) as [ri Hi].
+    simpl eval_lval. rewrite (Hi h).
+    destruct ri as [[vi|]|]; try (simpl; auto; fail). destruct vi; try (simpl; auto; fail).
+    cbv beta iota delta [lift]. rewrite (eval_arith_generic en o _ _ h Ao). simpl. rewrite (Hi h). simpl.
+    pose proof (proj1 Hen x TInts) as Tx. unfold has_type in Tx.
+    destruct (vars en x TInts) eqn:Vx; try discriminate. simpl.
+    destruct (z <? 0)%Z; simpl; auto.
+    destruct (nth_Z l (Z.to_nat z)); simpl; auto.
+    destruct (evalS en e h) as [[[v|] h2]|]; simpl; auto.
+    destruct (binop_apply o (VInt z0) v) as [[w|]|]; reflexivity.
+  - unfold eval_lval. destruct (nilp en x) eqn:N; [reflexivity|]. cbv beta iota.
+    rewrite (eval_arith_generic en o _ _ h Ao).
+    change (evalS en (ESel x f k t) h) with (if nilp en x then Some (RPanic, h) else Some (RVal (vars en (x ++ "." ++ f) t), h)).
+    rewrite N. generalize (x ++ "." ++ f). intros xf. simpl.
+    destruct (evalS en e h) as [[[v|] h2]|]; simpl; auto.
+    destruct (binop_apply o (vars en xf t) v) as [[w|]|]; reflexivity.
 Qed.
 
-(* `x = x + 1` => `x++` and `x = x - 1` => `x--` on integer operands *)
-Theorem assign_incdec_preserves en l (inc : bool) h :
-  env_ok en -> lval_pure l = true ->
-  (match l with LVar _ t => t = TInt | LIdx _ _ => True end) ->
-  exec en (assign_op_lhs l (if inc then OAdd else OSub) (ELit LInt "1" TInt)) h = exec en (SIncDec l inc) h.
+(* `x = x + 1` => `x++` and `x = x - 1` => `x--`: integer and float operands, any spelling of the literal 1 *)
+Definition lval_ty (l : lval) : ty :=
+  match l with LVar _ t | LVarK _ _ t | LSel _ _ _ t => t | LIdx _ _ | LIdxK _ _ _ => TInt end.
+
+Lemma exec_incdec en l inc h :
+  exec en (SIncDec l inc) h =
+  match eval_lval en l h with
+  | Some (RVal c, h1) =>
+      match read_loc en c with
+      | Some (RVal v0) =>
+          match binop_apply (if inc then OAdd else OSub) v0 (match v0 with VFloat _ => VFloat (FFin (inject_Z 1)) | _ => VInt 1 end) with
+          | Some (RVal w) => match store_loc en c w with Some r => Some (r, h1) | None => None end
+          | Some RPanic => Some (RPanic, h1)
+          | None => None
+          end
+      | Some RPanic => Some (RPanic, h1)
+      | None => None
+      end
+  | Some (RPanic, h1) => Some (RPanic, h1)
+  | None => None
+  end.
+Proof. reflexivity. Qed.
+
+Theorem assign_incdec_preserves en l (inc : bool) s h :
+  env_ok en -> lval_pure l = true -> go_int_lit s = Some 1%Z -> (lval_ty l = TInt \/ lval_ty l = TFloat) ->
+  exec en (assign_op_lhs l (if inc then OAdd else OSub) (ELit LInt s (lval_ty l))) h = exec en (SIncDec l inc) h.
 Proof.
-  intros Hen P T. rewrite assign_op_preserves by (auto; destruct inc; reflexivity).
-  unfold assign_op_rhs. destruct l as [x t|x i]; simpl.
-  - subst t. pose proof (proj1 Hen x TInt) as Tx. unfold has_type in Tx.
-    destruct (vars en x TInt) eqn:Vx; try discriminate. reflexivity.
-  - destruct (evalS en i h) as [[[vi|] h1]|]; auto. destruct vi; auto.
-    unfold read_loc. pose proof (proj1 Hen x TInts) as Tx. unfold has_type in Tx.
-    destruct (vars en x TInts) eqn:Vx; try discriminate.
-    destruct (z <? 0)%Z; auto. destruct (nth_Z l (Z.to_nat z)); reflexivity.
+  intros Hen P G Tt. rewrite assign_op_preserves by (auto; destruct inc; reflexivity).
+  unfold assign_op_rhs. rewrite exec_assign_op, exec_incdec.
+  assert (L : forall h0, evalS en (ELit LInt s (lval_ty l)) h0 =
+                         Some (RVal (match lval_ty l with TFloat => VFloat (FFin (inject_Z 1)) | _ => VInt 1 end), h0)).
+  { intros h0. simpl. destruct Tt as [-> | ->]; simpl; rewrite G; reflexivity. }
+  destruct (eval_lval en l h) as [[[c|] h1]|] eqn:EL; auto.
+  destruct (read_loc en c) as [[v0|]|] eqn:RL; auto.
+  rewrite L.
+  assert (V : vty v0 = lval_ty l).
+  { destruct l as [x t|x i|x k t|x k i|x f k t]; simpl in EL.
+    - inversion EL; subst. simpl in RL. inversion RL. apply Hen.
+    - destruct (evalS en i h) as [[[vi|] hi]|]; try discriminate. destruct vi; try discriminate. inversion EL; subst.
+      simpl in RL. destruct (vars en x TInts); try discriminate. inversion RL as [R]. destruct (z <? 0)%Z; [discriminate|].
+      destruct (nth_Z l (Z.to_nat z)); inversion R; reflexivity.
+    - inversion EL; subst. simpl in RL. inversion RL. apply Hen.
+    - destruct (evalS en i h) as [[[vi|] hi]|]; try discriminate. destruct vi; try discriminate. inversion EL; subst.
+      simpl in RL. destruct (vars en x TInts); try discriminate. inversion RL as [R]. destruct (z <? 0)%Z; [discriminate|].
+      destruct (nth_Z l (Z.to_nat z)); inversion R; reflexivity.
+    - destruct (nilp en x); [discriminate|]. inversion EL; subst. simpl in RL. inversion RL. apply Hen. }
+  destruct Tt as [T|T]; rewrite T in *; destruct v0; try discriminate; reflexivity.
 Qed.
 
 (* switchTrue: `switch true { ... }` => `switch { ... }` *)
@@ -97,7 +152,7 @@ Proof.
   intros Ht. unfold switch_true_lhs, switch_true_rhs. simpl. rewrite (Ht h).
   revert h. induction cases as [|[c body] r IH]; intros h; [reflexivity|].
   destruct (evalS en c h) as [[[vc|] h1]|]; auto.
-  destruct vc as [| | | |[]| |]; simpl; auto.
+  destruct vc as [| | | |[]| | | |]; simpl; auto.
 Qed.
 
 (* ---- valSwap: not an equivalence ---- *)
@@ -128,3 +183,143 @@ Proof.
   split; [apply env_of_ok|]. split; [reflexivity|]. split; [reflexivity|]. vm_compute. discriminate.
 Qed.
 
+
+(* ================= the statement rules as the checkers decide them (round 5) ================= *)
+Lemma rg_pure_lval l : rg_pure (lval_expr l) = true -> lval_pure l = true.
+Proof.
+  destruct l; simpl; auto; intros H; apply rg_pure_no_opaque; exact H.
+Qed.
+
+Lemma assign_op_ops_arith o : existsb (binop_eqb o) assign_op_ops = true -> is_arith o = true.
+Proof. destruct o; vm_compute; auto. Qed.
+
+Lemma typeof_lval l ta : typeof (lval_expr l) = Some ta -> ta = lval_ty l.
+Proof.
+  destruct l as [x t|x i|x k t|x k i|x f k t]; simpl; try congruence;
+    destruct (typeof i) as [[]|]; congruence.
+Qed.
+
+Lemma is_one_lit_inv y : is_one_lit y = true -> exists s t, y = ELit LInt s t /\ go_int_lit s = Some 1%Z.
+Proof.
+  destruct y as [|k s t| | | | | | | | |]; simpl; try discriminate. destruct k; try discriminate.
+  destruct (go_int_lit s) as [[|[]|]|] eqn:G; try discriminate. eauto.
+Qed.
+
+(* every statement the assignOp rules report — the `$x = $x op $y` patterns of all eleven operators, the
+   ++/-- forms, under the rule's Pure filter — behaves like the replacement the message shows *)
+Theorem assign_op_rule_preserves en l e s' h :
+  env_ok en -> typeof e <> None -> assign_op_rewrite (SAssign l e) = Some s' ->
+  exec en (SAssign l e) h = exec en s' h.
+Proof.
+  intros Hen T R. unfold assign_op_rewrite in R.
+  destruct e as [| | | |o x y| | | | | |]; try discriminate.
+  destruct (expr_eqb (lval_expr l) x && rg_pure x && existsb (binop_eqb o) assign_op_ops) eqn:C; [|discriminate].
+  apply andb_true_iff in C as [C Ops]. apply andb_true_iff in C as [E P]. apply expr_eqb_eq in E. subst x.
+  pose proof (rg_pure_lval l P) as LP. pose proof (assign_op_ops_arith o Ops) as Ao.
+  assert (IncDec : forall inc : bool, is_one_lit y = true -> o = (if inc then OAdd else OSub) ->
+            exec en (SAssign l (EBinary o (lval_expr l) y)) h = exec en (SIncDec l inc) h).
+  { intros inc One ->. destruct (is_one_lit_inv y One) as (s & t & -> & G).
+    assert (t = lval_ty l /\ (lval_ty l = TInt \/ lval_ty l = TFloat)) as [-> Tt].
+    { simpl in T. destruct (typeof (lval_expr l)) as [ta|] eqn:Tl; [|destruct inc; congruence].
+      apply typeof_lval in Tl. subst ta.
+      destruct (lit_type_ok LInt s t) eqn:LT; [|destruct inc; congruence].
+      unfold binop_type in T. destruct (ty_eqb (lval_ty l) t) eqn:Q; [|destruct inc; simpl in T; congruence].
+      apply ty_eqb_eq in Q. subst t. split; [reflexivity|].
+      unfold lit_type_ok in LT. destruct (lval_ty l); simpl in LT; try discriminate; auto. }
+    exact (assign_incdec_preserves en l inc s h Hen LP G Tt). }
+  destruct (is_one_lit y && binop_eqb o OAdd) eqn:C1.
+  - apply andb_true_iff in C1 as [One O]. apply binop_eqb_eq in O. inversion R; subst. exact (IncDec true One eq_refl).
+  - destruct (is_one_lit y && binop_eqb o OSub) eqn:C2.
+    + apply andb_true_iff in C2 as [One O]. apply binop_eqb_eq in O. inversion R; subst. exact (IncDec false One eq_refl).
+    + inversion R; subst. exact (assign_op_preserves en l o y h Hen Ao LP).
+Qed.
+
+(* switchTrue as decided by the rule: with the predeclared constant the rewrite is an equivalence ... *)
+Theorem switch_true_rule_preserves en n cases dflt s' h :
+  switch_true_rewrite (SSwitch (Some (EConst n (VBool true))) cases dflt) = Some s' ->
+  exec en (SSwitch (Some (EConst n (VBool true))) cases dflt) h = exec en s' h.
+Proof.
+  unfold switch_true_rewrite. destruct (spelled_true _); [|discriminate]. intros R; inversion R; subst.
+  apply switch_true_preserves. reflexivity.
+Qed.
+
+(* ... but the rule matches the SPELLING `true`: a variable of that name is rewritten as well *)
+Theorem switch_true_shadowed_refuted :
+  exists en s s', env_ok en /\ switch_true_rewrite s = Some s' /\
+    observe (exec en s []) <> observe (exec en s' []).
+Proof.
+  exists (env_of [("true", VBool false); ("a", VInt 0)] []),
+    (SSwitch (Some (EIdent "true" TBool))
+       [(EBinary OEq (EIdent "a" TInt) (ELit LInt "1" TInt), SAssign (LVar "b" TInt) (ELit LInt "1" TInt))]
+       (SAssign (LVar "b" TInt) (ELit LInt "3" TInt))).
+  eexists. split; [apply env_of_ok|]. split; [reflexivity|]. vm_compute. discriminate.
+Qed.
+
+(* valSwap as decided by the rule (both operands Pure): refuted *)
+Theorem val_swap_rule_refuted :
+  exists en s1 s2 s3 s', env_ok en /\ val_swap_rewrite s1 s2 s3 = Some s' /\
+    observe (exec en (SSeq s1 (SSeq s2 s3)) []) <> observe (exec en s' []).
+Proof.
+  exists (env_of [("xs", VInts [2; 7; 9]%Z); ("b", VInt 0)] []),
+    (SDefine "tmp" TInt (EIdent "b" TInt)),
+    (SAssign (LVar "b" TInt) (EIndex (EIdent "xs" TInts) (EIdent "b" TInt))),
+    (SAssign (LIdx "xs" (EIdent "b" TInt)) (EIdent "tmp" TInt)).
+  eexists. split; [apply env_of_ok|]. split; [reflexivity|]. vm_compute. discriminate.
+Qed.
+
+
+(* valSwap on two distinct plain variables of one type, with a temporary that is neither: both forms succeed without
+   events and leave every variable except the temporary with the same value (the swapped ones exchanged) *)
+Lemma vars_upd_same en x t v : vars (upd_var en x t v) x t = v.
+Proof. simpl. rewrite String.eqb_refl, ty_eqb_refl. reflexivity. Qed.
+Lemma vars_upd_other en x t v z u : (z <> x \/ u <> t) -> vars (upd_var en x t v) z u = vars en z u.
+Proof.
+  intros H. simpl. destruct (String.eqb z x) eqn:E1; [|reflexivity]. destruct (ty_eqb u t) eqn:E2; [|reflexivity].
+  apply String.eqb_eq in E1. apply ty_eqb_eq in E2. destruct H; contradiction.
+Qed.
+Lemma upd_var_ok en x t v : env_ok en -> vty v = t -> env_ok (upd_var en x t v).
+Proof.
+  intros [Hv Hf] T. split; [|exact Hf]. intros z u. unfold has_type. simpl.
+  destruct (String.eqb z x && ty_eqb u t) eqn:E; [|apply Hv].
+  apply andb_true_iff in E as [_ E]. apply ty_eqb_eq in E. congruence.
+Qed.
+
+Theorem val_swap_vars_preserves_partial en x y t tmp h :
+  env_ok en -> x <> y -> tmp <> x -> tmp <> y ->
+  exists en1 en2,
+    exec en (val_swap_lhs tmp t (LVar x t) (LVar y t)) h = Some (RVal en1, h) /\
+    exec en (val_swap_rhs (LVar x t) (LVar y t)) h = Some (RVal en2, h) /\
+    (forall z u, (z <> tmp \/ u <> t) -> vars en1 z u = vars en2 z u) /\
+    vars en2 x t = vars en y t /\ vars en2 y t = vars en x t.
+Proof.
+  intros Hen Nxy Ntx Nty.
+  set (vx := vars en x t). set (vy := vars en y t).
+  assert (Tx : vty vx = t) by apply Hen. assert (Ty : vty vy = t) by apply Hen.
+  exists (upd_var (upd_var (upd_var en tmp t vy) y t vx) x t vy), (upd_var (upd_var en y t vx) x t vy).
+  split; [|split; [|split; [|split]]].
+  - unfold val_swap_lhs. cbn [exec lval_expr evalS].
+    fold vy. rewrite Ty, ty_eqb_refl.
+    cbn [exec eval_lval evalS].
+    rewrite (vars_upd_other en tmp t vy x t) by (left; congruence). fold vx.
+    cbn [store_loc]. rewrite Tx, ty_eqb_refl.
+    cbn [exec eval_lval evalS].
+    rewrite (vars_upd_other _ y t vx tmp t) by (left; exact Nty). rewrite vars_upd_same.
+    cbn [store_loc]. rewrite Ty, ty_eqb_refl. reflexivity.
+  - unfold val_swap_rhs. cbn [exec eval_lval lval_expr evalS]. fold vx vy.
+    cbn [store_loc]. rewrite Tx, ty_eqb_refl. cbn [store_loc]. rewrite Ty, ty_eqb_refl. reflexivity.
+  - intros z u Hz.
+    destruct (String.eqb z x && ty_eqb u t) eqn:Ex.
+    + apply andb_true_iff in Ex as [E1 E2]. apply String.eqb_eq in E1. apply ty_eqb_eq in E2. subst z u.
+      rewrite !vars_upd_same. reflexivity.
+    + assert (Hx : z <> x \/ u <> t).
+      { apply andb_false_iff in Ex as [E|E]; [left; apply String.eqb_neq; exact E|right; intros ->; rewrite ty_eqb_refl in E; discriminate]. }
+      rewrite !(vars_upd_other _ x t vy z u Hx).
+      destruct (String.eqb z y && ty_eqb u t) eqn:Ey.
+      * apply andb_true_iff in Ey as [E1 E2]. apply String.eqb_eq in E1. apply ty_eqb_eq in E2. subst z u.
+        rewrite !vars_upd_same. reflexivity.
+      * assert (Hy : z <> y \/ u <> t).
+        { apply andb_false_iff in Ey as [E|E]; [left; apply String.eqb_neq; exact E|right; intros ->; rewrite ty_eqb_refl in E; discriminate]. }
+        rewrite !(vars_upd_other _ y t vx z u Hy). apply vars_upd_other. exact Hz.
+  - apply vars_upd_same.
+  - rewrite vars_upd_other by (left; congruence). apply vars_upd_same.
+Qed.
